@@ -143,7 +143,17 @@ func (e Event) Request() *z80.Interrupt {
 	case len(d) == 1 && d[0]&1 == 0:
 		return z80.IM2Interrupt(d[0]) // even byte: a mode-2 vector
 	default:
-		return z80.IM0Interrupt(d[0], d[1:]...) // RST n (odd opcodes) / CALL nn / anything longer
+		// RST n (odd opcodes) / CALL nn / anything longer. The operand bytes come out of a buffer of the
+		// host's with room to spare, and the host goes on using that buffer afterwards: the request must
+		// not live in the caller's slice
+		buf := make([]uint8, len(d)-1, len(d)+7)
+		copy(buf, d[1:])
+		q := z80.IM0Interrupt(d[0], buf...)
+		buf = buf[:cap(buf)]
+		for i := range buf {
+			buf[i] = 0xa5
+		}
+		return q
 	}
 }
 
